@@ -10,7 +10,7 @@ import os
 import random
 
 from ..common import main_wrapper, sha, MachineryError, available_versions, VERIF
-from .. import tlc, local, pool, behave, scopegen, suitegen, hoistgen, inputs
+from .. import tlc, local, pool, behave, scopegen, suitegen, hoistgen, shadowgen, inputs
 
 PID = 'C01'
 
@@ -74,6 +74,8 @@ def programs(tier, rng):
         out.append(('hoist-%d' % k, hoistgen.build(set(uses), c['lit'], 'plain', [None, 'fut2', 'adv', 'adv+fut2'][k % 4]), 'hoist'))
     for name, src in seeds_mod.seeds_for((3, 12)):
         out.append(('seed-' + name, src, 'seed'))
+    # builtin names a safe transform treats specially (`object` as a base, a builtin exception raised with empty brackets), rebound in 10 ways x 6 use sites
+    out.extend(shadowgen.programs())
     # arithmetic: the cells of Fold.tla (operator x operand class x operand class, concrete literals as in C07), many to a module in seeded order, each
     # reporting the repr() of its value or the exception type - anything the folder carries from one expression to the next shows up here
     from . import C07 as c07
@@ -108,7 +110,7 @@ def run(args, rep):
             compile(src, 'p', 'exec')
         except SyntaxError:
             continue
-        nsub = (12 if args.tier == 'quick' else 200) if kind == 'seed' else 1
+        nsub = (12 if args.tier == 'quick' else 200) if kind == 'seed' else (3 if kind.startswith('shadow:') else 1)
         jobs.append({'id': pid + '|default', 'src': src, 'opts': {}, 'stages': kind == 'seed' or rng.random() < 0.25, 'kind': kind})
         for k in range(nsub):
             jobs.append({'id': '%s|safe%d' % (pid, k), 'src': src, 'opts': behave.safe_subset(rng), 'stages': kind == 'seed' and k < 4, 'kind': kind})
@@ -149,6 +151,14 @@ def run(args, rep):
             fin = keep[rid].get('obs_final', '')
             if same311 and ('|EXC:NameError|' in fin or '|EXC:UnboundLocalError|' in fin or "'NameError'" in fin or 'NameError' in fin.split('|EXC:')[0][-4000:]):
                 d18.add(rid)
+    # known finding D45: `object` is rebound and remove_object_base drops it all the same - the same options with that one transform off leave the behaviour alone
+    d45 = set()
+    cand = [rid for rid in flagged if jb[rid]['kind'].startswith('shadow:object:') and jb[rid]['opts'].get('remove_object_base', True)
+            and not (jb[rid]['kind'].split(':')[2] == 'none' and jb[rid]['kind'].split(':')[3] in ('module', 'function', 'second-base'))]
+    if cand:
+        obs3 = local.pmap(behave.observe, [dict(jb[rid], id=rid, opts=dict(jb[rid]['opts'], remove_object_base=False), stages=True) for rid in cand], chunksize=4)
+        v3, _ = tlc.judge('Trace_Behave', 'Trace_Behave.cfg', [{k: v for k, v in o.items() if not k.startswith('_')} for o in obs3], tag='C01c')
+        d45 = set(cand) - set(v3)
     for rid, v in sorted(verdicts.items()):
         j = jb[rid]
         o = keep[rid]
@@ -156,6 +166,8 @@ def run(args, rep):
         tag = ''
         if rid in d18:
             tag = 'D18:'
+        elif rid in d45:
+            tag = 'D45:'
         elif kind.startswith('suite:module_top') and 'litstr' in kind and not kind.startswith('suite:module_top:litstr'):
             # a string statement that becomes the module docstring once the statements before it are removed (known finding D20)
             if o.get('_out', '').lstrip().startswith(("'lit'", '"lit"')):
@@ -175,12 +187,12 @@ def run(args, rep):
     rep.sample({'program': obs[-1]['id'], 'observation': obs[-1]['obs0'][:200]})
     rep.exhaustive = False
     rep.rule = ('runnable programs: enumerated scope programs of Rename.tla in two statement orders, suite cases of Suite.tla in their contexts, hoist placements of Hoist.tla, 12 seed '
-                'scripts; each under the defaults and seeded subsets of the safe options (seeds: %d subsets); a quarter of the programs (all seeds) with an observation after every '
+                'scripts, 122 programs rebinding `object` / a builtin exception (10 rebindings x 6 use sites); each under the defaults and seeded subsets of the safe options (seeds: %d subsets); a quarter of the programs (all seeds) with an observation after every '
                 'stage; non-trivial = distinct programs whose minified text differs from the input' % (12 if args.tier == 'quick' else 200))
-    rep.extra.update({'programs': len(progs), 'runs_with_stage_observations': sum(1 for o in obs if o['stages']), 'pep709_cases': len(d18),
+    rep.extra.update({'programs': len(progs), 'object_base_cases': len(d45), 'runs_with_stage_observations': sum(1 for o in obs if o['stages']), 'pep709_cases': len(d18),
                       'checker_cmd': 'tlc Pipeline.tla; tlc Trace_Behave.tla over ndjson observations'})
     rep.assumptions += ['observation = stdout, emit() log, terminating exception type, public namespace (simple values by repr, classes by attribute names, functions by arity)',
-                        'programs do not print renamed names, annotations or line numbers, compare exception messages, or rebind object (documented reflective freedom)',
+                        'programs do not print renamed names, annotations or line numbers, or compare exception messages (documented reflective freedom)',
                         'runs on the orchestrator interpreter (3.12); the PEP 709 classification additionally uses 3.11']
 
 
